@@ -213,8 +213,12 @@ JudgeFootprint(e, obv) ==
 (***************************************************************************)
 (* The step.                                                               *)
 (***************************************************************************)
+(* sz0/sz1: number of elements of the operand before/after the step (routing of C18) *)
+SizeOrNeg(r) == IF r.st = "live" THEN Len(r.elems) ELSE -1
 Report(e, kinds) ==
-  PrintT(<<"VERDICT", ToJson([h |-> e.h, s |-> e.s, n |-> e.n, line |-> l, kinds |-> kinds])>>)
+  PrintT(<<"VERDICT", ToJson([h |-> e.h, s |-> e.s, n |-> e.n, line |-> l, kinds |-> kinds,
+                              sz0 |-> IF "sz0" \in DOMAIN e THEN e.sz0 ELSE -1,
+                              sz1 |-> IF "sz1" \in DOMAIN e THEN e.sz1 ELSE -1])>>)
 
 S0 == [vec |-> vec, el |-> el]
 
@@ -257,7 +261,10 @@ StepOp(e) ==
     IN /\ vec' = R.vec /\ el' = R.el
        /\ heap' = lg.heap /\ objs' = lf.objs
        /\ ob' = [v \in Vecs |-> ObsOf(e, v)]
-       /\ (IF kinds = {} THEN TRUE ELSE Report(e, kinds))
+       /\ (IF kinds = {} THEN TRUE
+           ELSE Report([h |-> e.h, s |-> e.s, n |-> e.n,
+                        sz0 |-> IF e.v \in Vecs THEN SizeOrNeg(vec[e.v]) ELSE -1,
+                        sz1 |-> IF e.v \in Vecs THEN SizeOrNeg(R.vec[e.v]) ELSE -1], kinds))
        /\ skip' = (kinds # {})
 
 StepEnd(e) ==
@@ -283,7 +290,10 @@ TraceNext ==
   /\ LET e == TraceLog[l] IN
      CASE e.e = "begin" -> ResetState
        [] e.e = "crash" -> IF skip THEN Hold      \* the history already has its first divergence
-                           ELSE /\ Report(e, {"CRASH:" \o e.kind}) /\ skip' = TRUE
+                           ELSE /\ Report([h |-> e.h, s |-> e.s, n |-> e.n,
+                                           sz0 |-> IF e.v \in Vecs THEN SizeOrNeg(vec[e.v]) ELSE -1, sz1 |-> -1],
+                                          {"CRASH:" \o e.kind})
+                                /\ skip' = TRUE
                                 /\ UNCHANGED <<vec, el, heap, objs, ob>>
        [] e.e = "skip"  -> skip' = TRUE /\ UNCHANGED <<vec, el, heap, objs, ob>>
        [] e.e = "op"    -> IF skip THEN Hold ELSE StepOp(e)
